@@ -40,6 +40,21 @@ func (l *Log) Events() []Event {
 	return append([]Event(nil), l.events...)
 }
 
+// Since returns the bytes written by endpoint `from` in the events numbered >= fromEvent, and the
+// number of events so far (to be passed as fromEvent next time). Unlike Bytes it does not copy the
+// whole history on every call.
+func (l *Log) Since(from string, fromEvent int) ([]byte, int) {
+	l.mu.Lock()
+	defer l.mu.Unlock()
+	var out []byte
+	for i := fromEvent; i < len(l.events); i++ {
+		if l.events[i].From == from {
+			out = append(out, l.events[i].Data...)
+		}
+	}
+	return out, len(l.events)
+}
+
 // Bytes returns everything written by endpoint `from`, concatenated.
 func (l *Log) Bytes(from string) []byte {
 	l.mu.Lock()
